@@ -11,7 +11,7 @@ The rewrite-invariance consequence needs execution and is NOT decided.  Decided 
   R3  forcing is justified: a thunk created and forced in the same handler is guarded by `tailstrict`
 """
 from . import kwalk, cg, prov, irflow, evalmarks as em
-from .facts import callee_name
+from .facts import callee_name, AnchorMissing
 
 EXPLANATION = (
     "Static analysis: who-may-mutate queries and decision tables (over ThunkState) of switch_state / set_done "
@@ -365,11 +365,79 @@ def rule_r4(F, rep):
                           "object local / field expression is evaluated again" % (fn.q, why), fn.loc)
 
 
+LAZY_ARGS = {
+    # handler: (lazy parameter, forced exactly when the array is ..., reason)
+    "do_std_foldl": ("init", "empty", "std.foldl(f, [], init) is init; otherwise init is handed to f unevaluated"),
+    "do_std_foldr": ("init", "empty", "std.foldr(f, [], init) is init; otherwise init is handed to f unevaluated"),
+    "do_std_min_array": ("on_empty", "empty", "onEmpty is the result only for an empty array"),
+    "do_std_max_array": ("on_empty", "empty", "onEmpty is the result only for an empty array"),
+}
+
+
+def rule_r5(F, rep):
+    R = rep.rule("C04.R5", "a builtin argument that the evaluator keeps as a thunk (the initial value of std.foldl / std.foldr, "
+                 "`onEmpty` of std.minArray / std.maxArray) is forced by the builtin itself exactly when the array is empty; "
+                 "for a non-empty array it is passed on unevaluated (or not used), so an unused one is never run")
+    for hname, (pname, when, why) in LAZY_ARGS.items():
+        fn = F.fn("<%s>::%s" % (E, hname))
+        rep.fn(fn)
+        body = fn.body
+        names = body.local_names()
+        pl = [l for l, n in names.items() if n == pname and l <= body.argc]
+        if not pl:
+            pl = [l for l in range(2, body.argc + 1) if "ThunkData" in body.local_ty(l)["s"]]
+        if not pl:
+            raise AnchorMissing("%s: lazy parameter %s" % (hname, pname))
+        pl = pl[0]
+        P = prov.Prov(F, body)
+        for empty in (0, 1):
+            def hook(w, bb, t, env, args, empty=empty):
+                n = callee_name(t) or ""
+                if n in ("<[T]>::is_empty", "<alloc::vec::Vec>::is_empty"):
+                    return empty
+                if n in ("<[T]>::len", "<alloc::vec::Vec>::len"):
+                    return 0 if empty else None
+                if n in ("<[T]>::split_first", "<[T]>::split_last", "<[T]>::first", "<[T]>::last"):
+                    return ("var", "core::option::Option", "None" if empty else "Some")
+                return None
+
+            def on_stmt(w, bb, idx, st, env):
+                if st["k"] != "assign":
+                    return None
+                rv = st["rv"]
+                if rv["k"] == "agg" and rv["ak"] == "adt" and rv["adt"] == em.STATE and rv["v"] == "DoThunk":
+                    x = rv["xs"][0]
+                    if x["k"] in ("copy", "move") and pl in P._root_args(x["l"]):
+                        return ("force-lazy",)
+                if rv["k"] == "agg" and rv["ak"] == "adt" and rv["adt"] == em.ERRKIND:
+                    return ("err", rv["v"])
+                return None
+            w = kwalk.Walker(F, body, call_result=em.injector(F, body, values=["Array", "Function"] if "fold" in hname else ["Function", "Array"], extra=hook),
+                             on_stmt=on_stmt, want_ret=True)
+            outs = w.run(0, {})
+            rep.states += w.states_explored
+            forced = set()
+            for o in outs:
+                if o[0] != "return" or em.is_err_return(o):
+                    continue
+                forced.add(("force-lazy",) in o[1])
+            exp = {True} if empty else {False}
+            ok = forced == exp
+            rep.ob(R, "%s|array-%s" % (hname, "empty" if empty else "non-empty"), ok,
+                   {"builtin": hname, "argument": pname, "array_empty": bool(empty), "forced_by_builtin": sorted(forced)})
+            if not ok:
+                rep.violation(R, "%s|%s|array-%s" % (hname, pname, "empty" if empty else "non-empty"),
+                              "%s with %s array: the lazily passed argument `%s` is %s by the builtin (%s)"
+                              % (hname, "an empty" if empty else "a non-empty", pname,
+                                 "forced" if True in forced else "not forced", why), fn.loc)
+
+
 def run(F, rep, tier):
     rule_r1(F, rep)
     rule_r2(F, rep)
     rule_r3(F, rep)
     rule_r4(F, rep)
+    rule_r5(F, rep)
     rep.assume("the rewrite-invariance consequence (naming, identity functions, dead code) needs execution and is not "
                "decided; builtins' internal evaluation order is not decided")
     rep.trust("Jsonnet specification: laziness positions, transcribed as rules/c04.py:LAZY")
